@@ -44,6 +44,9 @@ func main() {
 	if len(os.Args) >= 3 && os.Args[1] == "symbp" {
 		os.Exit(run.SymBPSubprocess(os.Args[2:]))
 	}
+	if len(os.Args) >= 3 && os.Args[1] == "manybp" {
+		os.Exit(manyBP(os.Args[2]))
+	}
 	if len(os.Args) >= 3 && os.Args[1] == "ladder" {
 		os.Exit(ladder(os.Args[2]))
 	}
